@@ -93,6 +93,7 @@ typedef struct Sim {
 	Rng sched;
 	uint32_t stay_num, stay_den; /* probability to keep running the same task */
 	int pct;                     /* PCT mode for function-entry preemption */
+	int pct_left;
 	uint64_t step, step_cap;
 	uint64_t fp;                 /* fingerprint over all events */
 	uint64_t ileave;             /* interleaving id over (task,kind) */
@@ -124,7 +125,9 @@ void sim_retry_wait(int64_t ns);                /* sleep of an EAGAIN retry loop
 int64_t sim_node_time(int node);                 /* seconds, node-local clock */
 void sim_abort_run(void);
 void sim_watchdog_start(void);
-void sim_set_phase(const char *what);            /* for hang reports */
+void sim_set_phase(const char *what);
+void preempt_reset(int pct_d);
+void sim_copy(void *dst, const void *src, size_t n);   /* copy that no sanitizer interceptor sees */            /* for hang reports */
 Task *sim_cur(void);
 
 enum {
